@@ -787,9 +787,33 @@ def unit_criteria(inj, scratch):
                         'cmp_at_direct return symbolic Orderings (reversed when called with swapped receiver/argument)'],
                        'cmp_at_numbers / cmp_at_datetimes / cmp_at_direct (parse_filesize, parse_datetime, T::cmp), Expr::contains_numeric/datetime')
     recs.append(r); dropped.append(d)
+    keyfns = ''
+    for kf in ['cmp_at_numbers', 'cmp_at_direct']:
+        kit = s.item('fn', kf, (cimpl['open'], cimpl['close']))
+        kb = dedent(s.text[kit['open']:kit['end']])
+        keyfns += f'    pub fn {kf}(&self, other: &Self, i: usize) -> Ordering {kb}\n'
+        r, d = frag_record(f'FragKey::{kf}', 'src/util/mod.rs', f'impl Criteria / fn {kf} (whole body, verbatim, as a method of shim type FragKey)', kb, kb,
+                           ['values: Vec<T> -> Vec<KVal> where KVal is a number whose to_string() is a shim text; parse_filesize on that text returns the number'],
+                           'parse_filesize (C14), the real Display of T')
+        recs.append(r); dropped.append(d)
     text = f'''pub mod criteria {{
 use super::*;
 use std::cmp::Ordering;
+// ---- per-key comparison bodies on a shim value type ----
+#[derive(Clone, Copy, PartialEq, Eq, PartialOrd, Ord)] pub struct KVal(pub u64);
+pub struct KStr(pub u64);
+impl KVal {{ pub fn to_string(&self) -> KStr {{ KStr(self.0) }} }}
+impl KStr {{ pub fn parse<T: FromU64>(&self) -> Result<T, ()> {{ Ok(T::from_u64(self.0)) }} }}
+pub trait FromU64 {{ fn from_u64(v: u64) -> Self; }}
+impl FromU64 for f32 {{ fn from_u64(v: u64) -> f32 {{ v as f32 }} }}
+impl FromU64 for f64 {{ fn from_u64(v: u64) -> f64 {{ v as f64 }} }}
+impl FromU64 for u64 {{ fn from_u64(v: u64) -> u64 {{ v }} }}
+impl FromU64 for i64 {{ fn from_u64(v: u64) -> i64 {{ v as i64 }} }}
+pub fn parse_filesize(s: &KStr) -> Option<u64> {{ Some(s.0) }}
+pub struct FragKey {{ pub values: Vec<KVal> }}
+impl FragKey {{
+{keyfns}
+}}
 pub struct FragField {{ pub numeric: bool, pub datetime: bool }}
 impl FragField {{
     pub fn contains_numeric(&self) -> bool {{ self.numeric }}
